@@ -11,6 +11,22 @@ for f in sorted(glob.glob(os.path.join(HERE, "seeded", "*", "meta.json"))):
     quiet = [c["check"] for c in m["checks_run_quick_tier"] if c["exit"] == 0]
     other = [f"{c['check']} exit {c['exit']}" for c in m["checks_run_quick_tier"] if c["exit"] not in (0, 1)]
     rows.append(f"| {m['seed']} | {m['breaks_property']} | {title} | {', '.join(caught) or '—'} | {', '.join(quiet + other) or '—'} |")
+import sys
+out = []
+_print = print
+def print(x):  # noqa: A001
+    out.append(x)
 print("| seed | property | change (first line of the author's notes) | caught by (violations reported, quick tier) | ran and stayed quiet |")
 print("|---|---|---|---|---|")
 print("\n".join(rows))
+
+table = "\n".join(out)
+if "--update" in sys.argv:
+    d = os.path.join(HERE, "DESIGN.md")
+    t = open(d).read()
+    b, e = "<!-- seed-table-begin -->", "<!-- seed-table-end -->"
+    i, j = t.index(b) + len(b), t.index(e)
+    open(d, "w").write(t[:i] + "\n" + table + "\n" + t[j:])
+    _print(f"DESIGN.md table updated: {len(rows)} seeds")
+else:
+    _print(table)
